@@ -52,6 +52,11 @@ CHECKS = {
   note=TRUST + " The discipline hypothesis (the compiler never truncates below an open cell without closing it) is checked per program (C04 verifier, scenario runs), not proved; name resolution of the real compiler is tied to the reference interpreter by differential runs only.",
   technique="Lean 4 proof (forward simulation to an abstract variable store) + replay of real capture/close events + constructed-oracle scenarios",
   ref="DESIGN.md section 5 C06"),
+ "C07": dict(
+  text="Lean 4 theorems on the class-table model: copy_down_is_nearest (after any sequence of class definitions a class's table maps a name to the method defined nearest in its ancestry as recorded at definition time), rebinding_irrelevant, fields_first, invoke_eq_get_call (for EVERY receiver, name and argument count the fast path and get-then-call select the same body with the same receiver and arity check, or the same error), bound_keeps_receiver, super_static, static_self, ctor_returns_instance, errors_classified; statements that are false of the code (static methods are not inherited through the class value; copy-down for metaclass objects) are proved false with witnesses. Tie: random hierarchies - every lookup through instances and through the class value answered by the model and by the implementation; 12 constructed-oracle scenarios (2 GC modes); generated class programs (GC-mode metamorphic, reference interpreter).",
+  note=TRUST + " How the compiler captures super/Self and compiles constructors is tied by scenarios and the reference interpreter only. Deriving from built-in classes is known finding F4.",
+  technique="Lean 4 proof (class-definition protocol as operations on method tables; lookup-path equivalence) + hierarchy-query correspondence + constructed-oracle scenarios",
+  ref="DESIGN.md section 5 C07"),
  "C08": dict(
   text="Lean 4 theorems on the exception-handler mechanism: unwind_contract (unwinding with handlers h::r leaves r, exactly h's frames, the first h.initStack slots unchanged plus the exception, pc at h's catch address; with no handler the run ends naming the value), unwind_selects_innermost, handler_lifo, balanced_region for every nesting depth, finally_flag, handlers_per_fiber; with C04's verify_sound every verified function leaves the handler stack as it found it on every path. Tie: every handler event of real runs replayed through the model; 20 constructed-oracle scenarios covering each clause of the property (2 GC modes); program differential against the Lean reference interpreter.",
   note=TRUST + " Source-level 'finally exactly once on every exit' is proved on the models only; six open compiler/VM findings (F13, F14, F23, F25, F26, F27) are listed with replays and excluded from generated programs.",
